@@ -9,7 +9,9 @@ for f in sorted(glob.glob("/verif/seeded/*/meta.json")):
     caught = [k for k, v in det.items() if v.get("exit") == 1 and v.get("violations", 0) > 0]
     missed = [k for k, v in det.items() if v.get("exit") == 0]
     other = [f"{k}(exit {v.get('exit')})" for k, v in det.items() if v.get("exit") not in (0, 1)]
-    rows.append((sid, m.get("property"), m.get("title", "")[:90], (m.get("needs_to_manifest") or "")[:160].replace("\n", " "),
+    if m.get("obsolete"):
+        caught, missed, other = ["(obsolete: " + m["obsolete"][:140] + ")"], [], []
+    rows.append((sid + (" (ported)" if m.get("ported") else ""), m.get("property"), m.get("title", "")[:90], (m.get("needs_to_manifest") or "")[:160].replace("\n", " "),
                  ", ".join(caught) or "-", ", ".join(missed + other) or "-"))
 out = ["# Seeded changes", "",
        "Each directory holds `patch.diff` (applies to /repo HEAD with `git apply`), `demo.py` (exit 0 unchanged, non-zero with the patch)",
